@@ -28,7 +28,10 @@ def samples(draw, min_taxa=4, max_taxa=8, min_trees=1, max_trees=8, weights=True
                                            binary=binary))
         trees.append(t)
     wkind = draw(st.sampled_from(["none", "none", "int", "dyadic", "mixed"])) if weights else "none"
-    for t in trees:
+    for ti, t in enumerate(trees):
+        if wkind in ("int", "dyadic") and ti > 0 and draw(st.integers(0, 5)) == 0:
+            t["w"] = 0.0  # a tree of weight zero contributes nothing (the first tree keeps a positive weight)
+            continue
         if wkind == "none":
             t["w"] = None
         elif wkind == "int":
